@@ -9,7 +9,7 @@
 From Coq Require Import List NArith Bool.
 From FS Require Import Sx Model.Path Model.Stat Model.Tree Model.FollowLinks Model.Pattern Model.FilterWalk
      Model.FollowTransfer Proofs.PatternP Proofs.FollowLinksP Proofs.FollowLinksClosedP Proofs.FollowLinksWildP
-     Proofs.FollowTransferP.
+     Proofs.FollowTransferP Proofs.FollowTransferStarP.
 Import ListNotations.
 Open Scope N_scope.
 
@@ -103,6 +103,30 @@ Theorem transfer_resolves_same_partial :
         forall r o x, In r reqs -> In o (chroot_resolve_all gmatch view r) -> needed o x ->
           In (joinc x) (map st_path (filter_walk pmatch id_map c view)).
 Proof. exact FollowTransferP.transfer_resolves_same_partial_proof. Qed.
+
+(* ---- the same for requests whose LAST component is a bare star (d/star): FollowLinks then
+        keeps the pattern d/star in its result, the one non-literal pattern shape to which C10's
+        prefix_semantics gives a meaning (L/star matches L/ followed by one component, for
+        regex-safe L).  star_inputs: every component of a link target and every component of a
+        (cleaned) request is plain and regex-safe (ASCII, none of the braces and bar), except
+        that the last component of a request may be a bare star.  The result must not contain the
+        bare pattern "star" itself (a request star at the root, or below a link to the root): that
+        shape is a general glob for the library.  Other wildcards (l-star, ?, classes) would need
+        a hypothesis tying Pattern.match's regexp translation to filepath.Match: not covered. ---- *)
+Theorem transfer_resolves_same_star_partial :
+  forall pmatch gmatch view reqs,
+    prefix_semantics pmatch ->
+    FollowLinks.wf_view view = true ->
+    star_inputs view reqs = true ->
+    forall (fuel : nat) (follow : option (list bytes)),
+      follow_links_opt gmatch view fuel reqs = Ok follow ->
+      no_revisit gmatch view fuel reqs = true ->
+      lexical_safe view reqs = true ->
+      (forall res, follow = Some res -> ~ In s_star res) ->
+      exists c, follow_cfg follow = Some c /\
+        forall r o x, In r reqs -> In o (chroot_resolve_all gmatch view r) -> needed o x ->
+          In (joinc x) (map st_path (filter_walk pmatch id_map c view)).
+Proof. exact FollowTransferStarP.transfer_resolves_same_star_proof. Qed.
 
 (* ---- what FollowLinks returns is a fixed point of dedupePaths: running dedupePaths once more
         over a FollowPaths-only include list (as NewFilterFS did before the fix of finding
@@ -251,6 +275,18 @@ Example transfer_instances :
   plain_inputs [F [33;120]] [[33;120]] = false.
 Proof. vm_compute. repeat split; reflexivity. Qed.
 
+(* a star request: dir/star on the chain tree keeps the pattern dir/star and adds dir/foo (target
+   of dir/l1); the walk with these includes reports dir and everything directly below it *)
+Example transfer_star_instances :
+  star_inputs v_chain [[100;105;114;47;42]] = true /\
+  plain_inputs v_chain [[100;105;114;47;42]] = false /\
+  follow_links_opt go_match v_chain (fuel_bound v_chain [[100;105;114;47;42]]) [[100;105;114;47;42]] =
+    Ok (Some [[100;105;114;47;42]; [100;105;114;47;102;111;111]]) /\
+  walked v_chain [[100;105;114;47;42]] =
+    Some [[100;105;114]; [100;105;114;47;102;111;111]; [100;105;114;47;108;49]] /\
+  star_inputs v_chain [[108;50]; [98;97;114]] = true.
+Proof. vm_compute. repeat split; reflexivity. Qed.
+
 Print Assumptions follow_terminates.
 Print Assumptions result_sorted_minimal.
 Print Assumptions result_covers_resolved.
@@ -258,6 +294,7 @@ Print Assumptions result_closed.
 Print Assumptions result_closed_selfmatch.
 Print Assumptions transfer_resolves_same_partial.
 Print Assumptions follow_targets_dedupe_fixpoint.
+Print Assumptions transfer_resolves_same_star_partial.
 Print Assumptions result_closed_refuted.
 Print Assumptions result_closed_lexical_refuted.
 Print Assumptions result_closed_wildcard_refuted.
